@@ -10,7 +10,7 @@ import (
 )
 
 func main() {
-	p, err := ana.Load(ana.Config{Dir: "/repo"})
+	p, err := ana.Load(ana.Config{Dir: repoDir()})
 	if err != nil {
 		panic(err)
 	}
@@ -48,4 +48,11 @@ func main() {
 	if len(os.Args) > 3 {
 		fn.WriteTo(os.Stdout)
 	}
+}
+
+func repoDir() string {
+	if d := os.Getenv("VDUMP_REPO"); d != "" {
+		return d
+	}
+	return "/repo"
 }
